@@ -328,7 +328,7 @@ def v_sched(tier, seed):
 
 
 # -------------------------------------------------------------------------------------------------
-@family('V-C18', props=['C18'], floor={'quick': 14, 'thorough': 14},
+@family('V-C18', props=['C18'], floor={'quick': 16, 'thorough': 16},
         doc='unchecked constructors of Batch/World are unreachable from safe code; ragged entities! rows are rejected')
 def v_c18(tier, seed):
     P = '''use brood::{entity, entities, Registry, Resources, World, entities::Batch};
@@ -350,6 +350,10 @@ type R = Registry!(A, B);
     ws.append(W('entities.ragged.long-first', P + 'pub fn w() { let _ = entities!((A(1), B(1)), (A(2))); }\n', 'fail', 'macro', 'ragged rows in entities!'))
     ws.append(W('entities.ragged.short-first', P + 'pub fn w() { let _ = entities!((A(1)), (A(2), B(2))); }\n', 'fail', 'macro', 'ragged rows in entities!'))
     ws.append(W('entities.rect.twin', P + 'pub fn w() { let _ = entities!((A(1), B(1)), (A(2), B(2))); let _ = entities!((A(1), B(1)); 3); }\n', 'compile', None, 'rectangular entities!'))
+    ws.append(W('entities.count-evaluated-once', P + 'pub struct Token;\nfn consume(_t: Token) -> usize { 3 }\npub fn w() { let t = Token; let _ = entities!((A(1), B(2)); consume(t)); }\n', 'compile', None,
+                'the length expression of entities!((..); n) is evaluated exactly once (a move-only argument compiles): evaluating it once per column lets a side-effecting expression build ragged columns through the unchecked constructor in safe code'))
+    ws.append(W('entities.component-evaluated-once', P + '#[derive(Clone)] pub struct M(pub u8);\npub struct Token;\nfn make(_t: Token) -> A { A(1) }\npub fn w() { let t = Token; let _ = entities!((make(t), B(2)); 2); }\n', 'compile', None,
+                'each component expression of entities!((..); n) is evaluated exactly once'))
     ws.append(W('archetype.private', P + 'pub fn w() { let _: Option<brood::archetype::Archetype<R>> = None; }\n', 'fail', 'privacy', 'archetype storage is not reachable from outside'))
     return ws, True
 
